@@ -99,6 +99,8 @@ impl WalHandle {
             while let Some(msg) = rx.recv().await {
                 match msg {
                     WalMessage::Entry(entry) => {
+                        #[cfg(feature = "verif")]
+                        crate::verif::gate("wal.entry_received", shard_id, 0).await;
                         if let Err(err) = writer.append_immediate(&entry) {
                             error!(
                                 target: "wal_handle::spawn_wal_thread",
